@@ -413,3 +413,30 @@ fn print_diffs<W: WriteColor>(
   styles.diff.print_diff(source, &new_str, writer, context)?;
   Ok(())
 }
+
+#[cfg(feature = "verif-hooks")]
+pub mod verif_hooks {
+  use super::*;
+  use ast_grep_language::SupportLang;
+
+  /// the real `print_matches_with_prefix` (no colour, no heading) for selected nodes of `src`
+  pub fn prefix_report(
+    src: &str,
+    lang: SupportLang,
+    pattern: Option<&str>,
+    ranges: &[(usize, usize)],
+    context: (u16, u16),
+    path: &str,
+  ) -> Vec<u8> {
+    let grep = crate::print::verif_hooks::parse(src, lang);
+    let matches = crate::print::verif_hooks::select(&grep, pattern, ranges);
+    let printer = ColoredPrinter::new(Buffer::no_color())
+      .color(ColorChoice::Never)
+      .heading(Heading::Never)
+      .context(context);
+    let processor = printer.get_processor();
+    let buffer =
+      print_matches_with_prefix(matches, Path::new(path), &processor).expect("print_matches");
+    buffer.into_inner()
+  }
+}
